@@ -52,6 +52,9 @@ type Check struct {
 	Families    []*Family
 	// Post runs in the parent after all families (e.g. auxiliary passes).
 	Post func(p *Parent)
+	// RacePass runs the check's scenario bodies free-running (no scheduler); it is executed
+	// in a separate binary built with -race, whose reports the parent parses.
+	RacePass func(tier string)
 }
 
 // Violation is one oracle failure.
@@ -189,6 +192,7 @@ func Main(args []string) int {
 	tier := envOr("VERIF_TIER", "quick")
 	var worker, replay, famOnly string
 	var one int64 = -1
+	racepass := false
 	for i := 1; i < len(args); i++ {
 		switch args[i] {
 		case "--tier":
@@ -206,10 +210,20 @@ func Main(args []string) int {
 		case "--case":
 			i++
 			one, _ = strconv.ParseInt(args[i], 10, 64)
+		case "--racepass":
+			racepass = true
 		}
 	}
 	seed, _ := strconv.ParseInt(os.Getenv("VERIF_SEED"), 10, 64)
 	chk := mk()
+	if racepass {
+		if chk.RacePass == nil {
+			return 0
+		}
+		chk.RacePass(tier)
+		fmt.Fprintln(os.Stderr, "RACEPASS-DONE")
+		return 0
+	}
 	if worker != "" {
 		return runWorker(chk, tier, worker)
 	}
@@ -659,6 +673,9 @@ func (p *Parent) run(famOnly string) int {
 		}
 		p.runFamily(f)
 	}
+	if p.Check.RacePass != nil && famOnly == "" {
+		p.runRacePass()
+	}
 	if p.Check.Post != nil && famOnly == "" {
 		p.Check.Post(p)
 	}
@@ -818,4 +835,143 @@ func (k *KnownFile) Match(prop, sig string) *Known {
 		}
 	}
 	return nil
+}
+
+
+// runRacePass executes the -race build of this check's scenario bodies and turns every
+// reported data race whose stacks touch jig/lisp into a violation (the race detector has
+// no false positives). It samples schedules: auxiliary evidence for the "no data race"
+// clause, never the deciding step for the schedule-quantified clauses.
+func (p *Parent) runRacePass() {
+	bin := filepath.Join(VerifDir, ".work", "bin", "vcheck-race")
+	if _, err := os.Stat(bin); err != nil {
+		p.Internal("race binary missing: " + bin)
+		return
+	}
+	t0 := time.Now()
+	cmd := exec.Command(bin, p.Check.ID, "--tier", p.Tier, "--racepass")
+	cmd.Env = append(os.Environ(), "GORACE=halt_on_error=0 history_size=3", "GOMAXPROCS=16")
+	var stderr tailBufBig
+	cmd.Stderr = &stderr
+	cmd.Stdout = nil
+	done := make(chan error, 1)
+	if err := cmd.Start(); err != nil {
+		p.Internal("race pass: " + err.Error())
+		return
+	}
+	go func() { done <- cmd.Wait() }()
+	limit := 10 * time.Minute
+	if p.Tier == "thorough" {
+		limit = 40 * time.Minute
+	}
+	select {
+	case <-done:
+	case <-time.After(limit):
+		cmd.Process.Kill()
+		p.Total.Cap("race pass stopped at its time limit")
+	}
+	out := stderr.String()
+	completed := strings.Contains(out, "RACEPASS-DONE")
+	races := ParseRaces(out)
+	n := 0
+	for sig, detail := range races {
+		n++
+		p.Total.fam = &Family{Name: "race-pass", Describe: func(int64) string { return "free-running -race pass" }}
+		p.Total.idx = -1
+		p.Total.ViolationCase("data race: "+sig, "free-running -race pass of the scenario bodies", detail)
+	}
+	iters := 0
+	for _, l := range strings.Split(out, "\n") {
+		if strings.HasPrefix(l, "RACEPASS-ITERATIONS ") {
+			fmt.Sscanf(l, "RACEPASS-ITERATIONS %d", &iters)
+		}
+	}
+	if !completed && n == 0 {
+		p.Internal("race pass did not complete: " + oneLine(tail(out, 600), 600))
+	}
+	p.Extra["race_pass"] = map[string]any{"completed": completed, "scenario_iterations": iters, "distinct_races": n, "wall_s": round1(time.Since(t0).Seconds()),
+		"note": "free-running goroutines under the Go race detector; samples schedules (auxiliary evidence for the no-data-race clause)"}
+	fmt.Fprintf(os.Stderr, "[%s] race pass: completed=%v iterations=%d races=%d %.1fs\n", p.Check.ID, completed, iters, n, time.Since(t0).Seconds())
+}
+
+func tail(s string, n int) string {
+	if len(s) > n {
+		return s[len(s)-n:]
+	}
+	return s
+}
+
+type tailBufBig struct {
+	mu  sync.Mutex
+	buf []byte
+}
+
+func (t *tailBufBig) Write(b []byte) (int, error) {
+	t.mu.Lock()
+	defer t.mu.Unlock()
+	if len(t.buf) < 8<<20 {
+		t.buf = append(t.buf, b...)
+	}
+	return len(b), nil
+}
+func (t *tailBufBig) String() string { t.mu.Lock(); defer t.mu.Unlock(); return string(t.buf) }
+
+// ParseRaces extracts the distinct data races (by the two innermost jig/lisp functions)
+// from race detector output.
+func ParseRaces(out string) map[string]string {
+	res := map[string]string{}
+	blocks := strings.Split(out, "==================")
+	for _, b := range blocks {
+		if !strings.Contains(b, "WARNING: DATA RACE") {
+			continue
+		}
+		// stacks: sections starting with "Write at", "Read at", "Previous write at", "Previous read at"
+		var tops []string
+		harness := false
+		lines := strings.Split(b, "\n")
+		inAccess := false
+		found := false
+		for _, l := range lines {
+			tl := strings.TrimSpace(l)
+			if strings.HasPrefix(tl, "Write at") || strings.HasPrefix(tl, "Read at") || strings.HasPrefix(tl, "Previous write at") || strings.HasPrefix(tl, "Previous read at") {
+				inAccess, found = true, false
+				continue
+			}
+			if strings.HasPrefix(tl, "Goroutine ") {
+				inAccess = false
+			}
+			if inAccess && !found && strings.HasSuffix(tl, ")") && !strings.HasPrefix(tl, "/") {
+				// the innermost frame that is not runtime plumbing owns the access
+				if strings.HasPrefix(tl, "runtime.") || strings.HasPrefix(tl, "reflect.") || strings.HasPrefix(tl, "sync.") || strings.HasPrefix(tl, "sync/atomic.") || strings.HasPrefix(tl, "internal/") {
+					continue
+				}
+				if !strings.HasPrefix(tl, "github.com/jig/lisp") || strings.Contains(tl, "/zverif/") {
+					harness = true
+					found = true
+					continue
+				}
+			}
+			if inAccess && !found && strings.HasPrefix(tl, "github.com/jig/lisp") && !strings.Contains(tl, "/zverif/") {
+				f := tl
+				if i := strings.LastIndex(f, "("); i > 0 {
+					f = f[:i]
+				}
+				tops = append(tops, f)
+				found = true
+			}
+		}
+		if len(tops) == 0 || harness {
+			continue // an access made by harness code itself: not a property of jig/lisp
+		}
+		sort.Strings(tops)
+		sig := strings.Join(tops, " <-> ")
+		if _, ok := res[sig]; !ok {
+			d := b
+			if len(d) > 3000 {
+				d = d[:3000]
+			}
+			res[sig] = d
+		}
+	}
+	return res
 }
